@@ -7,6 +7,8 @@ from .. import paths
 from ..core import FUNC, call_attr, calls_in, const, dotted, is_const, kwarg, norm, slice_parts, text, walk_local
 
 EXPLANATION = [
+    'C17.records-not-aliased: every local container that a method of sdp.Server modifies in place (+=, append, sort, ...) is bound only to containers the method created (literals, comprehensions, list() / sorted() / copies): a request cannot alias and edit a registered service record.',
+    'C17.dm-refuses-open: in Multiplexer.on_dm_frame every path taken while the multiplexer is OPENING changes the state and settles the pending open_result (path rule): a DM cannot be ignored while an open is pending.',
     'C17.except-name: no name bound by `except ... as name` is read after its handler: Python deletes it when the handler ends, so the read raises UnboundLocalError exactly when the exception was caught.',
     'C17.sdp-containment: DataElementParser records the end of the sequence being parsed and refuses (before descending) an element whose end lies past it, restoring the outer bound afterwards: the offset never moves backwards, so parsing is linear in the input.',
     'C17.regex: no regular expression in hfp / at / transport has an unbounded repeat whose body starts and ends with unbounded repeats over overlapping character sets with only nullable items between (the shape that backtracks exponentially on a failing match); decided on the re._parser tree of every literal pattern.',
@@ -1005,7 +1007,71 @@ def except_name_rule(ctx):
     except_name_escape(ctx, 'C17.except-name', ['bumble.l2cap', 'bumble.smp', 'bumble.sdp', 'bumble.rfcomm', 'bumble.hfp', 'bumble.avdtp', 'bumble.avctp', 'bumble.host'])
 
 
+def dm_refuses_open(ctx):
+    """A DM frame received while a data-link open is in progress ends that open: whatever the frame's DLCI (the PN answer
+    has already cleared the bookkeeping that names it), every path through the OPENING branch leaves the OPENING state and
+    fails the pending open_result -- otherwise open_dlc() never returns and every later open is refused."""
+    R, p = ctx.r, ctx.p
+    rule = 'C17.dm-refuses-open'
+    fn = p.find('bumble.rfcomm.Multiplexer.on_dm_frame')
+    if fn is None:
+        R.bad(rule, 'bumble.rfcomm.Multiplexer.on_dm_frame', 'anchor missing')
+        return
+
+    class D(paths.Domain):
+        # (in OPENING?, state changed, open settled or absent)
+        def assume(self, atom, truth, v):
+            t = norm(atom)
+            if t in ('self.state == Multiplexer.State.OPENING', 'self.state == self.State.OPENING'):
+                return ((truth, v[1], v[2]),)
+            if t == 'self.open_result' and not truth:
+                return ((v[0], v[1], True),)
+            return (v,)
+
+        def event(self, node, v):
+            if isinstance(node, ast.Call) and dotted(node.func) == 'self.change_state':
+                return ((v[0], True, v[2]),)
+            if isinstance(node, ast.Call) and dotted(node.func) in ('self.open_result.set_exception', 'self.open_result.cancel'):
+                return ((v[0], v[1], True),)
+            return (v,)
+    res = paths.run(fn, D(), (None, False, False))
+    ex = paths.normal_exits(res)
+    bad = [' '.join(w) for v, w in ex.items() if v[0] is True and not (v[1] and v[2])]
+    R.check(any(v[0] is True for v in ex) and not bad, rule, 'bumble.rfcomm.Multiplexer.on_dm_frame | OPENING', 'every path taken in the OPENING state leaves it and fails the pending open',
+            'a DM received while opening can be ignored (early return): the pending open_dlc() is never completed, the multiplexer stays OPENING and refuses every later open', p.loc(fn), bad[:2])
+
+
+def records_not_aliased(ctx, rule='C17.records-not-aliased'):
+    """The SDP server answers from its registered records without touching them: a list that a request handler extends or
+    sorts is one it created itself (a literal, a comprehension, list(...), sorted(...)), never a name bound to a record."""
+    R, p = ctx.r, ctx.p
+    ci = p.cls('bumble.sdp.Server')
+    if ci is None:
+        R.bad(rule, 'bumble.sdp.Server', 'anchor missing')
+        return
+    n = 0
+    FRESH = (ast.List, ast.ListComp, ast.Dict, ast.DictComp, ast.Set, ast.SetComp)
+    for name, fn in sorted(ci.methods.items()):
+        mutated = {}
+        for x in walk_local(fn):
+            if isinstance(x, ast.AugAssign) and isinstance(x.target, ast.Name):
+                mutated.setdefault(x.target.id, x)
+            if isinstance(x, ast.Call) and isinstance(x.func, ast.Attribute) and isinstance(x.func.value, ast.Name) and x.func.attr in ('append', 'extend', 'sort', 'insert', 'remove', 'pop', 'clear', 'reverse', 'update'):
+                mutated.setdefault(x.func.value.id, x)
+        params = {a.arg for a in fn.args.args}
+        for nm, site in sorted(mutated.items()):
+            binds = [s_.value for s_ in walk_local(fn) if isinstance(s_, ast.Assign) and any(isinstance(t, ast.Name) and t.id == nm for t in s_.targets)]
+            if not binds and nm not in params:
+                continue
+            n += 1
+            ok = bool(binds) and all(isinstance(b, FRESH) or (isinstance(b, ast.Call) and (dotted(b.func) or '') in ('list', 'sorted', 'dict', 'set', 'bytearray') or (isinstance(b, ast.Call) and isinstance(b.func, ast.Attribute) and b.func.attr in ('copy', 'sequence', 'keys', 'values'))) or isinstance(b, (ast.Constant, ast.BinOp, ast.Subscript, ast.JoinedStr)) for b in binds)
+            R.check(ok, rule, f'bumble.sdp.Server.{name} | {nm}', 'a container the handler created', f'`{nm}` is modified in place (line {site.lineno}) and can be bound to something the handler did not create ({[norm(b)[:30] for b in binds if not isinstance(b, FRESH)][:2] or "a parameter"}): a request then edits the server\'s registered record, and every later answer is built from the edited record', p.loc(site))
+    R.check(n >= 1, rule, 'bumble.sdp.Server | containers modified in place', f'{n} local containers, each created by the handler', f'only {n} found')
+
+
 RULES = [
+    ('C17.records-not-aliased', records_not_aliased),
+    ('C17.dm-refuses-open', dm_refuses_open),
     ('C17.except-name', except_name_rule),
     ('C17.sdp-containment', sdp_containment),
     ('C17.regex', regex_rule),
